@@ -154,9 +154,10 @@ class Run:
         for m in re.finditer(r"^([A-Z][A-Za-z0-9_']*(?:\.[A-Za-z0-9_']+)+)\s*(?::|$)", out, re.M):
             self.axioms.add(m.group(1))
 
-    def prove(self, gens, libs, proofs, props, timeout=900):
+    def prove(self, gens, libs, proofs, props, timeout=900, hook=None):
         """gens: generated .v (absolute, already in work dir); libs: staged sequentially; proofs: staged, parallel;
-        props: the Properties file (only statements + exact).  Records obligations."""
+        props: the Properties file (only statements + exact).  Records obligations.
+        hook: called after the libs are compiled; returns further proof files it generated in the work dir."""
         ok_all = True
         res = self.coq_parallel(gens, timeout)
         for f, (ok, out, err, dt) in res.items():
@@ -172,6 +173,7 @@ class Run:
                 failed_lemmas.append(nm or os.path.basename(f))
                 self.broken.append({"what": "lemma %s in %s no longer checks" % (nm, os.path.basename(f)), "detail": err[-2000:]})
         pf = self.stage(proofs)
+        if hook is not None: pf = pf + list(hook())
         res = self.coq_parallel(pf, timeout)
         bad_files = []
         for f in pf:
